@@ -124,8 +124,8 @@ def check_bijection(case, ctx):
         if not all(np.all(np.isfinite(v)) for v in flat(e1)):
             ctx.inconcl("nonfinite")
             continue
-        if m.endswith("log_det") and abs(float(flat(e1)[1])) / max(1, np.asarray(arg).size) > 12.0:
-            ctx.inconcl("ill_conditioned")  # |log-det| per element > 12: rounding-dominated (cf. C08)
+        if m.endswith("log_det") and (abs(float(flat(e1)[1])) / max(1, np.asarray(arg).size) > 12.0 or abs(float(flat(e1)[1])) > 15.0):
+            ctx.inconcl("ill_conditioned")  # volume change beyond e^15 (or e^12 per element): rounding-dominated (cf. C08, C03)
             return False
         if not near(j1, e1, tol) or not near(j2, e1, tol):
             raise Violation(f"C14|{who}|jit_vs_eager|{m}", f"jit {[v.tolist() for v in flat(j1)]} eager {[v.tolist() for v in flat(e1)]}")
